@@ -1,4 +1,6 @@
 SPECIFICATION TSpec
+CONSTANTS
+  Known = @KNOWN@
 CONSTRAINT Record
 POSTCONDITION Accepted
 CHECK_DEADLOCK FALSE
